@@ -12,7 +12,9 @@ import (
 var (
 	TripIDs   = []string{"", "10_t", "9_t", "T3", "t4", "t4x"}
 	RouteIDs  = []string{"", "M", "R1", "r2", "r3"}
-	StopIDs   = []string{"", "L11N", "M11", "M11N", "M11NN", "M11S", "M11X", "M12N", "M12S", "M13N", "M13S", "M14N", "M14S", "M16N", "M16S", "M18N", "M18S", "M19N", "M19S", "S1", "s2", "s3"}
+	StopIDs   = []string{"", "L11N", "M11", "M11N", "M11NN", "M11S", "M11X", "M12N", "M12S", "M13N", "M13S", "M14N", "M14S", "M16N", "M16S", "M18N", "M18S", "M19N", "M19S", "S1", "s2", "s3",
+		// elevator stations (tokens 22, 25, 28) with their N (+1) and S (+2) platforms, see spec/NyctAlerts.tla
+		"t27", "t27N", "t27S", "u01", "u01N", "u01S", "v25", "v25N", "v25S"}
 	// vehicle ids; the NYCT train ids are vehicle ids too (an assigned trip is linked to the vehicle named by its train id)
 	VehIDs    = []string{"", "01 1234 A/B", "0L 0555+ 8AV/RPY", "V1", "v2", "v3", "v4", "v5", "x"}
 	Labels    = []string{"", "L1", "l2"}
@@ -20,7 +22,7 @@ var (
 	Agencies  = []string{"", "A1", "a2"}
 	AlertIDs  = []string{"", "al1", "al2", "al3", "lmm:alert:1", "lmm:planned_work:2"}
 	Texts     = []string{"", "Délai, \"ligne\" 7\nsuite", "plain text", "zzz"}
-	Languages = []string{"", "en", "fr"}
+	Languages = []string{"", "en", "fr", "github.com/jamespfennell/gtfs/extensions/nyctalerts/Metadata"}
 	Tracks    = []string{"", "1", "A2", "b3"}
 )
 
@@ -115,3 +117,10 @@ func tripIDTok(s string) int {
 	}
 	return strTok(TripIDs, s)
 }
+
+// Elevator alert ids (spec/NyctAlerts.tla): station 1..3, platform 0 none / 1 N / 2 S, elevator token.
+var (
+	ElevStations = []string{"", "t27", "u01", "v25"}
+	ElevPlats    = []string{"", "N", "S"}
+	Elevators    = []string{"", "123", "728"}
+)
